@@ -1808,7 +1808,11 @@ class FnTranslator:
     def function(self, fnode, sp):
         self.cur_fnode = fnode                     # [loop ties C15] for dict_local's whole-function check
         args = fnode.args
-        if args.vararg or args.kwarg or args.kwonlyargs or args.posonlyargs:
+        # [loop ties e2] spec key `allow_kwarg=True`: a `**kwargs` parameter is accepted in the SIGNATURE only (the decorators'
+        # `wrapper(a, **kwargs)`): the name is never bound in the translation, so any read of it is refused (unknown name /
+        # keyword arguments in a call) unless it sits inside a source expression the spec declares as an opaque typed input
+        # (e.g. `f(a, **kwargs)`), which is all a pass-through wrapper does with it
+        if args.vararg or (args.kwarg and not sp.get('allow_kwarg')) or args.kwonlyargs or args.posonlyargs:
             raise Refuse('%s.%s: unsupported parameter kinds' % (self.rel, sp['name']))
         names = [a.arg for a in args.args]
         want = sp.get('py_params')
